@@ -16,8 +16,9 @@ Cases
              follow the documented use of reset(): validate the set-up logging, reset, exercise, validate again)
   types    : allow_additional_fields / declared keys of the serializers the real types build
   test     : generated unittest test cases whose methods are wrapped by capture_logging (once, twice, around bodies that run
-             inner test cases, around bodies that swap the default logger themselves and never restore it) and end in
-             pass / fail / error / skip; the default logger seen by every body and afterwards
+             inner test cases, around bodies that swap the default logger themselves and never restore it, around bodies that
+             log a wrong-typed / incomplete / non-JSON message or an unflushed traceback) and end in pass / fail / error /
+             skip (raise SkipTest, self.skipTest); the default logger seen by every body and afterwards
 
 Tie: lean/Eliot/Model/Validation.lean through Driver/C14.lean: accept / the class of the exception raised, for
 _MessageSerializer.validate, MemoryLogger._validate_message, MemoryLogger.validate, check_for_errors; the serializer
@@ -47,6 +48,7 @@ THEOREMS = [
     "VM.check_for_errors_iff",
     "VM.default_logger_restored",
     "VM.default_logger_untouched",
+    "VM.bad_entry_reported",
     "VM.validateAllS_fst",
     "VM.invalid_after_reset_reported",
 ]
@@ -713,19 +715,37 @@ def oracle_ops(ctx, c, ops, cbs, real):
 
 def gen_tree(rng, depth=0):
     r = rng.random()
-    if depth >= 3 or r < 0.3:
-        return {"body": rng.choice(["pass", "fail", "error", "skip"])}
-    if r < 0.65:
+    if depth >= 4 or r < 0.27:
+        return {"body": rng.choice(["pass", "fail", "error", "skip", "skip-method"])}
+    if r < 0.55:
         return {"captured": gen_tree(rng, depth + 1)}
+    if r < 0.68:
+        # the body logs something check_for_errors has to report, then goes on (and may fail, raise, or be skipped)
+        return {"logs_bad": gen_tree(rng, depth + 1), "bad_kind": rng.choice(["invalid", "traceback", "not-json", "missing"])}
     if r < 0.8:
         # the body (or the code under test) installs a logger of its own and never puts the old one back
         return {"swaps": gen_tree(rng, depth + 1)}
     return {"inner": [gen_tree(rng, depth + 1), gen_tree(rng, depth + 1)]}
 
 
+def model_tree(t):
+    """the tree as the model knows it: how a test is skipped and what kind of bad entry it logs make no difference there"""
+    if "body" in t:
+        return {"body": "skip" if t["body"] == "skip-method" else t["body"]}
+    if "logs_bad" in t:
+        return {"logs_bad": model_tree(t["logs_bad"])}
+    if "swaps" in t:
+        return {"swaps": model_tree(t["swaps"])}
+    if "captured" in t:
+        return {"captured": model_tree(t["captured"])}
+    return {"inner": [model_tree(x) for x in t["inner"]]}
+
+
 def has_swaps(t):
     if "body" in t:
         return False
+    if "logs_bad" in t:
+        return has_swaps(t["logs_bad"])
     if "swaps" in t:
         return True
     if "captured" in t:
@@ -736,6 +756,8 @@ def has_swaps(t):
 def tree_depth(t):
     if "body" in t:
         return 0
+    if "logs_bad" in t:
+        return 1 + tree_depth(t["logs_bad"])
     if "swaps" in t:
         return 1 + tree_depth(t["swaps"])
     if "captured" in t:
@@ -745,10 +767,10 @@ def tree_depth(t):
 
 def run_tree(tree, log_invalid):
     """run the generated test case for real; -> observations"""
-    from eliot import _output, MessageType, Field, MemoryLogger
+    from eliot import _output, MessageType, Field, MemoryLogger, write_traceback, log_message
     from eliot.testing import capture_logging, swap_logger
 
-    seen, inside_ok, results, own = [], [], [], []
+    seen, inside_ok, results, own, capture_loggers, bad_targets = [], [], [], [], [], []
     swapping = has_swaps(tree)
     BAD = MessageType("bad:type", [Field.forTypes("n", [int], "")], "")
 
@@ -768,10 +790,38 @@ def run_tree(tree, log_invalid):
                     raise RuntimeError("generated error")
                 if o == "skip":
                     raise unittest.SkipTest("generated skip")
+                if o == "skip-method":
+                    self.skipTest("generated skip")
 
             return body
         if "captured" in t:
-            return capture_logging(None)(build(t["captured"]))
+            wrapped = build(t["captured"])
+
+            def notes_logger(self, logger=None, **kw):
+                capture_loggers.append(logger)
+                return wrapped(self, logger=logger, **kw)
+
+            return capture_logging(None)(notes_logger)
+        if "logs_bad" in t:
+            then = build(t["logs_bad"])
+            kind = t.get("bad_kind", "invalid")
+
+            def logs_bad_entry(self, **kw):
+                bad_targets.append(_output._DEFAULT_LOGGER)
+                if kind == "invalid":
+                    BAD.log(n="not an int")
+                elif kind == "missing":
+                    BAD.log()
+                elif kind == "not-json":
+                    log_message("untyped", payload=Opaque())
+                else:
+                    try:
+                        raise RuntimeError("generated, unflushed")
+                    except RuntimeError:
+                        write_traceback()
+                return then(self, **kw)
+
+            return logs_bad_entry
         if "swaps" in t:
             after_swap = build(t["swaps"])
 
@@ -799,7 +849,9 @@ def run_tree(tree, log_invalid):
 
         res = unittest.TestResult()
         Case("test").run(res)
-        results.append((len(res.failures), len(res.errors), len(res.skipped), res.testsRun))
+        reports = [tb for _, tb in res.errors + res.failures
+                   if "ValidationError" in tb or "UnflushedTracebacks" in tb or "doesn't encode to JSON" in tb]
+        results.append((len(res.failures), len(res.errors) - len(reports), len(res.skipped), res.testsRun, len(reports)))
 
     before = _output._DEFAULT_LOGGER
     try:
@@ -812,8 +864,9 @@ def run_tree(tree, log_invalid):
     for l in seen:
         ids.setdefault(id(l), len(ids))
         canon.append(ids[id(l)])
+    must_report = {id(l) for l in bad_targets if any(l is c for c in capture_loggers)}
     return dict(seen=canon, final=ids.get(id(after), -1), restored=after is before, inside_ok=all(inside_ok), created=len(ids) - 1,
-                results=results)
+                results=results, reported=sum(r[4] for r in results), must_report=len(must_report))
 
 
 # ---- the run ---------------------------------------------------------------------------------------
@@ -901,10 +954,16 @@ def run(ctx):
             m2 = {"x": v, "message_type": "m", "task_uuid": "u", "task_level": [1], "timestamp": 1.5}
             cases.append(dict(kind="validate", env=env, ser=spec_json(spec, reg), msg=enc_msg(m2, reg)))
             metas.append(("validate", dict(tag="matrix", m=m2, serobj=serobj, spec=spec, cbs=cbs)))
-    for i in range(ctx.budget(60, 2500)):
-        t = gen_tree(rng)
-        cases.append(dict(kind="test", test=t, default=0))
-        metas.append(("test", dict(tree=t, log_invalid=(i % 3 == 0))))
+    trees = [gen_tree(rng) for _ in range(ctx.budget(60, 2500))]
+    # on every seed: a decorated test logs each kind of bad entry and is then skipped (either spelling), fails, raises, passes
+    for kind_ in ("invalid", "missing", "not-json", "traceback"):
+        for o in ("skip", "skip-method", "fail", "error", "pass"):
+            trees.append({"captured": {"logs_bad": {"body": o}, "bad_kind": kind_}})
+    trees.append({"captured": {"captured": {"logs_bad": {"inner": [{"captured": {"logs_bad": {"body": "skip"}, "bad_kind": "traceback"}},
+                                                                     {"body": "skip-method"}]}, "bad_kind": "invalid"}}})
+    for t in trees:
+        cases.append(dict(kind="test", test=model_tree(t), default=0))
+        metas.append(("test", dict(tree=t, log_invalid=False)))
     model = lean_driver("Driver/C14.lean", cases)
     name = "correspondence:validation-model"
     for c, (kind, meta), mo in zip(cases, metas, model):
@@ -994,13 +1053,17 @@ def run(ctx):
             ren = {0: 0}
             for x in mo["seen"]:   # the model numbers every MemoryLogger created, the real side only those a body saw
                 ren.setdefault(x, len(ren))
-            mo = {"seen": [ren[x] for x in mo["seen"]], "final": ren.get(mo["final"], -1)}
-            if {"seen": real["seen"], "final": real["final"]} != mo:
+            mo = {"seen": [ren[x] for x in mo["seen"]], "final": ren.get(mo["final"], -1), "reported": mo["reported"]}
+            if {"seen": real["seen"], "final": real["final"], "reported": real["reported"]} != mo:
                 ctx.broken_tie(name, "default logger under capture_logging differs from the model", dict(case=c, real=real, model=mo))
             else:
                 ctx.traces += 1
             if not real["restored"] and ("captured" in meta["tree"] or not has_swaps(meta["tree"])):
                 ctx.violation("the default logger after a capture_logging test is not the one before it; test %s" % json.dumps(meta["tree"]), c, key=None)
+            if real["reported"] != real["must_report"]:
+                ctx.violation("%d captured logs hold an entry that must be reported (wrong-typed / missing field, not JSON, unflushed traceback), "
+                              "%d check_for_errors failures were recorded by unittest; test %s" % (real["must_report"], real["reported"], json.dumps(meta["tree"])),
+                              dict(kind="test", test=meta["tree"], default=0), key=None)
             if not real["inside_ok"]:
                 ctx.violation("inside a capture_logging test the default logger is not the MemoryLogger handed to the test", c, key=None)
     if name not in ctx.broken:
@@ -1090,6 +1153,9 @@ def replay(ctx, obj):
         print(real, real2)
         if not (real["restored"] and real2["restored"]) and ("captured" in c["test"] or not has_swaps(c["test"])):
             ctx.violation("the default logger after a capture_logging test is not the one before it", c, key=None)
+        if real["reported"] != real["must_report"]:
+            ctx.violation("%d captured logs hold an entry that must be reported, %d check_for_errors failures were recorded by unittest" % (
+                real["must_report"], real["reported"]), c, key=None)
     elif c.get("kind") == "api":
         cbs, ser_of = rebuild(c, reg)
         mfields = [dict(f, value=dec_val(f["value"])) if f["t"] == "value" else dict(f) for f in c["fields"]]
